@@ -120,9 +120,12 @@ fn run(ops: &[Value], out: &mut Out) {
 }
 
 pub fn replay(behaviours: &[Vec<Value>], out: &mut Out) -> Result<(), String> {
-    for b in behaviours {
+    for (i, b) in behaviours.iter().enumerate() {
         let mut b = b.clone();
-        b.push(json!({"o": "drain"}));
+        // every third lookup is cut off where it stands (the pool's query timeout may strike at any time): its result is taken at once
+        if i % 3 != 2 {
+            b.push(json!({"o": "drain"}));
+        }
         b.push(json!({"o": "result"}));
         run(&b, out);
     }
@@ -185,7 +188,9 @@ pub fn drive(seed: u64, n: usize, out: &mut Out) -> Result<(), String> {
             }
         }
         let _ = &mut shadow_out;
-        ops.push(json!({"o": "drain"}));
+        if rng.gen_range(0..3) != 0 {
+            ops.push(json!({"o": "drain"}));
+        }
         ops.push(json!({"o": "result"}));
         run(&ops, out);
     }
